@@ -723,10 +723,10 @@ public:
 
 	~CMsgPackReadObjectScope()
 	{
-		ResetKey();
 		// Skip key/values that was not read
 		try
 		{
+			ResetKey();
 			for (size_t c = mIndex; c < mSize; ++c)
 			{
 				mMsgPackReader->SkipValue();
